@@ -19,13 +19,11 @@ func (urlTree *URLTree[T]) Traversal(url string) LookupFlowResult[T] {
 
 func lookupFlow[T any](urlTree *URLTree[T], url string) lookupFlowNodeResult[T] {
 	splitURL := splitURL(url)
-	lookUpLength := len(splitURL) - 1
 	currentNode := urlTree.Root
 	flows := []T{}
-	index := 0
+	matchedAll := len(splitURL) > 0
 
-	var part urlPart
-	for index, part = range splitURL {
+	for _, part := range splitURL {
 		log.Trace().Msgf("lookupFlowNodeResult::Looking up part %v", part)
 		if currentNode.WildcardChild != nil && currentNode.WildcardChild.hasValue() {
 			flows = append(flows, *currentNode.WildcardChild.Value)
@@ -44,16 +42,20 @@ func lookupFlow[T any](urlTree *URLTree[T], url string) lookupFlowNodeResult[T] 
 			continue
 		}
 
+		// no child accepts this part: the URL is not a declared pattern (only wildcards seen so far apply)
+		matchedAll = false
 		break
 	}
 
-	if index == lookUpLength && currentNode.hasValue() && currentNode.WildcardChild == nil {
-		flows = append(flows, *currentNode.Value)
-	} else if index == lookUpLength && part.IsPartOfHost &&
-		currentNode.WildcardChild != nil && currentNode.WildcardChild.hasValue() {
-		// case where url is host without path and filter ends with a wildcard, for example:
-		// url: "host.com", filter: "host.com/*"
-		flows = append(flows, *currentNode.WildcardChild.Value)
+	if matchedAll {
+		// a trailing wildcard also matches zero segments, for example:
+		// url: "host.com", filter: "host.com/*"  and  url: "host.com/x", filter: "host.com/x/*"
+		if currentNode.WildcardChild != nil && currentNode.WildcardChild.hasValue() {
+			flows = append(flows, *currentNode.WildcardChild.Value)
+		}
+		if currentNode.hasValue() {
+			flows = append(flows, *currentNode.Value)
+		}
 	}
 
 	for _, flow := range flows {
